@@ -300,7 +300,7 @@ package electreIII
 //@ func distillate
 //@   property C05 C06
 //@   requires [starts_at_the_largest_credibility] !isInner ==> isMax(maxCred, *matrix)
-//@   ensures [positions] result != nil && fresh(result) && (len(*result) == 0 || fresh(*result))
+//@   ensures [positions] result != nil && fresh(result) && fresh(*result)
 //@ func rank
 //@   property C05 C06
 //@   ensures [positions] result != nil
@@ -359,3 +359,46 @@ package electreIII
 //@                  credibilityFlatMatrix[r * alternativesNum + j] == (r == j ? 1.0 : credV((*alternatives)[r], (*alternatives)[j], criteria, electreCriteria))
 //@   loop 2 invariant [this_row] forall j int :: 0 <= j && j < iter ==> credibilityFlatMatrix[i * alternativesNum + j] == (i == j ? 1.0 : credV((*alternatives)[i], (*alternatives)[j], criteria, electreCriteria))
 //@   loop 2 invariant [ids_done] forall r int :: 0 <= r && r <= i ==> alternativesIds[r] == (*alternatives)[r].Id
+
+// positions already decided (non-zero) among the candidate indices, in candidate order
+//@ func updatedPositions
+//@   property C05 C06
+//@   ensures [decided_candidates_only] result != nil && fresh(result) && forall m int :: 0 <= m && m < len(*result) ==>
+//@             exists k int :: 0 <= k && k < len(*indices) && (*result)[m] == (*indices)[k] && (*positions)[(*indices)[k]] != 0
+//@   ensures [at_most_the_candidates] len(*result) <= len(*indices)
+//@   loop 1 invariant [ctx] fresh(newValues) && len(newValues) <= iter
+//@   loop 1 invariant [so_far] forall m int :: 0 <= m && m < len(newValues) ==> exists k int :: 0 <= k && k < iter && newValues[m] == (*indices)[k] && (*positions)[(*indices)[k]] != 0
+//@   loop 1 invariant [input] unchanged(*indices) && unchanged(*positions)
+
+// the still undecided (zero) positions take the further positions in order; decided ones are kept
+//@ func writePositionsSequentially
+//@   property C05 C06
+//@   requires [separate_lists] arr(*positions) != arr(*positionsToWrite)
+//@   assigns *positions
+//@   ensures [decided_kept] *positions == old(*positions) && forall i int :: 0 <= i && i < len(*positions) && old((*positions)[i]) != 0 ==> (*positions)[i] == old((*positions)[i])
+//@   ensures [undecided_take_a_further_position] forall i int :: 0 <= i && i < len(*positions) && old((*positions)[i]) == 0 ==> exists w int :: 0 <= w && w < len(*positionsToWrite) && (*positions)[i] == (*positionsToWrite)[w]
+//@   loop 1 invariant [ctx] *positions == old(*positions) && unchanged(*positionsToWrite) && 0 <= toWriteIndex && toWriteIndex <= iter
+//@   loop 1 invariant [decided_kept] forall i int :: 0 <= i && i < len(*positions) && (old((*positions)[i]) != 0 || i >= iter) ==> (*positions)[i] == old((*positions)[i])
+//@   loop 1 invariant [undecided_written] forall i int :: 0 <= i && i < iter && old((*positions)[i]) == 0 ==> exists w int :: 0 <= w && w < toWriteIndex && w < len(*positionsToWrite) && (*positions)[i] == (*positionsToWrite)[w]
+
+// Matches: per group (row or column) the number of entries satisfying the predicate; one counter per group
+//@ func (*Matrix).Matches
+//@   property C05 C06
+//@   fnparam groupEvaluator pure
+//@   fnparam predicate pure
+//@   ensures [one_counter_per_group] fresh(result) && len(result) == groupsNumber && forall g int :: 0 <= g && g < groupsNumber ==> 0 <= result[g] && result[g] <= len(m.Data)
+//@   loop 1 invariant [ctx] fresh(groups) && len(groups) == groupsNumber
+//@   loop 1 invariant [bounded_counts] forall g int :: 0 <= g && g < groupsNumber ==> 0 <= groups[g] && groups[g] <= iter
+//@ func (*Matrix).MatchesInRow$1
+//@   property C05 C06
+//@   nopanic
+//@   ensures [by_row] result == row
+//@ func (*Matrix).MatchesInColumn$1
+//@   property C05 C06
+//@   nopanic
+//@   ensures [by_column] result == col
+
+//@ func NewMatrix
+//@   property C05 C06
+//@   ensures [square] fresh(result) && result.Size == len(*values) && len(result.Data) == len(*values) * len(*values)
+//@   loop 1 invariant [ctx] fresh(data) && len(data) == size * size && size == len(*values)
